@@ -49,11 +49,21 @@ RoutingKey build_pattern(const Pattern &p) {
 struct Universe {
     std::vector<Path> sub_keys;          // keys that can be subscribed
     std::vector<Path> all_keys;          // prefix closure (everything that can be stored)
-    std::vector<RoutingKey> sub_rk, all_rk;
-    std::vector<Pattern> patterns; std::vector<RoutingKey> pat_rk;
+    std::vector<Pattern> patterns;
     std::vector<int> shrink_patterns;    // indices into patterns
 };
 Universe *U;
+
+// RoutingKey objects are built per explored step and never shared between steps: if key objects carried state (a cache, say), results would
+// otherwise depend on the order of exploration and could not be replayed.  Within one step a key object IS reused across calls.
+struct KeyCache {
+    std::map<int, RoutingKey> sub, all, pat;
+    const RoutingKey &sub_rk(int i) { auto it = sub.find(i); if (it == sub.end()) it = sub.emplace(i, build_key(U->sub_keys[i])).first; return it->second; }
+    const RoutingKey &all_rk(int i) { auto it = all.find(i); if (it == all.end()) it = all.emplace(i, build_key(U->all_keys[i])).first; return it->second; }
+    const RoutingKey &pat_rk(int i) { auto it = pat.find(i); if (it == pat.end()) it = pat.emplace(i, build_pattern(U->patterns[i])).first; return it->second; }
+    void clear() { sub.clear(); all.clear(); pat.clear(); }
+};
+KeyCache K;
 
 void build_universe(bool big) {
     U = new Universe();
@@ -63,8 +73,6 @@ void build_universe(bool big) {
     std::set<Path> all;
     for (auto &k : ks) for (size_t n = 1; n <= k.size(); n++) all.insert(Path(k.begin(), k.begin() + n));
     U->all_keys.assign(all.begin(), all.end());
-    for (auto &k : U->sub_keys) U->sub_rk.push_back(build_key(k));
-    for (auto &k : U->all_keys) U->all_rk.push_back(build_key(k));
     std::vector<int> kinds = big ? std::vector<int>{L_A, L_B, L_AB, L_ALL, L_RX_ASTAR, L_RX_AORB, L_RX_A} : std::vector<int>{L_A, L_B, L_AB, L_ALL, L_RX_ASTAR, L_RX_AORB};
     for (int d = 1; d <= 3; d++) {
         std::vector<size_t> idx(d, 0);
@@ -75,7 +83,6 @@ void build_universe(bool big) {
             if (i == d) break;
         }
     }
-    for (auto &p : U->patterns) U->pat_rk.push_back(build_pattern(p));
     for (size_t i = 0; i < U->patterns.size(); i++) {
         const Pattern &p = U->patterns[i];
         bool pick = p.size() <= 2;
@@ -155,7 +162,7 @@ template<typename R, typename... Args> struct Sys {
     int live_on(int key) { int n = 0; for (auto &s : subs) n += s.live && s.key == key; return n; }
     int dead_keys() { int n = 0; for (int k : has_subject) { bool live = false; for (auto &s : subs) live |= s.live && all_index(U->sub_keys[s.key]) == k; n += !live; } return n; }
 
-    std::set<int> stored() { std::set<int> s; for (size_t i = 0; i < U->all_keys.size(); i++) if (router->exists(U->all_rk[i])) s.insert((int)i); return s; }
+    std::set<int> stored() { std::set<int> s; for (size_t i = 0; i < U->all_keys.size(); i++) if (router->exists(K.all_rk((int)i))) s.insert((int)i); return s; }
 
     bool pre(const Op &o) {
         switch (o.kind) {
@@ -170,7 +177,7 @@ template<typename R, typename... Args> struct Sys {
     void check_notify(int pi, const std::set<int> &removed_before_call, const char *ctx) {
         const Pattern &p = U->patterns[pi];
         g_calls.clear();
-        size_t ret = S::notify(*router, U->pat_rk[pi]);
+        size_t ret = S::notify(*router, K.pat_rk(pi));
         std::vector<Call> want; size_t keys_with_subject = 0;
         for (auto &s : subs) if (s.live && !removed_before_call.count(s.obs) && matches(p, U->sub_keys[s.key])) want.push_back(Call{s.obs, S::expect()});
         for (int k : has_subject) if (matches(p, U->all_keys[k])) keys_with_subject++;
@@ -197,7 +204,7 @@ template<typename R, typename... Args> struct Sys {
         for (int k : has_subject) if (!S0.count(k)) bad("exists:subject-key-missing", "model bookkeeping: key " + path_str(U->all_keys[k]) + " holds a subject but does not exist");
         for (size_t pi = 0; pi < U->patterns.size(); pi++) {
             bool want = false; for (int k : S0) want |= matches(U->patterns[pi], U->all_keys[k]);
-            bool got = router->exists(U->pat_rk[pi]);
+            bool got = router->exists(K.pat_rk((int)pi));
             if (got != want) bad("exists:pattern", fmt("exists(%s) == %d, but %s stored key matches it level by level", pat_str(U->patterns[pi]).c_str(), got, want ? "a" : "no"));
         }
         size_t d = router->depth();
@@ -213,7 +220,7 @@ template<typename R, typename... Args> struct Sys {
                 int me = obs; g_calls.push_back(Call{me, show(a...)});
                 if (g_self_invalidate.count(me)) { g_self_invalidate.erase(me); self->invalidate(); }
             };
-            handles[obs].h.emplace(router->template subscribe<Args...>(U->sub_rk[o.arg], cb));
+            handles[obs].h.emplace(router->template subscribe<Args...>(K.sub_rk(o.arg), cb));
             subs.push_back(MSub{obs, o.arg});
             has_subject.insert(all_index(U->sub_keys[o.arg]));
             break;
@@ -222,19 +229,19 @@ template<typename R, typename... Args> struct Sys {
         case INVAL_H: {      // invalidate through the handle, then the next notify of its key removes it without invoking it
             handles[o.arg].invalidate();
             int pi = concrete_pattern(subs[o.arg].key);
-            if (check) check_notify(pi, {subs[o.arg].obs}, "after invalidate(): "); else S::notify(*router, U->pat_rk[pi]);
+            if (check) check_notify(pi, {subs[o.arg].obs}, "after invalidate(): "); else S::notify(*router, K.pat_rk(pi));
             subs[o.arg].live = false; break;
         }
         case INVAL_S: {      // the observer invalidates itself from inside its callback: it is invoked this one last time
             g_self_invalidate.insert(subs[o.arg].obs);
             int pi = concrete_pattern(subs[o.arg].key);
-            if (check) check_notify(pi, {}, "self-invalidating round: "); else S::notify(*router, U->pat_rk[pi]);
+            if (check) check_notify(pi, {}, "self-invalidating round: "); else S::notify(*router, K.pat_rk(pi));
             subs[o.arg].live = false; break;
         }
         case SHRINK: {
             int pi = U->shrink_patterns[o.arg]; const Pattern &p = U->patterns[pi];
             std::set<int> before = check ? stored() : std::set<int>();
-            router->shrink(U->pat_rk[pi]);
+            router->shrink(K.pat_rk(pi));
             std::set<int> after = stored();
             for (auto it = has_subject.begin(); it != has_subject.end();) if (!after.count(*it)) it = has_subject.erase(it); else ++it;
             if (!check) break;
@@ -274,7 +281,7 @@ template<typename R, typename... Args> struct Sys {
     }
 
     std::string step(const std::vector<Op> &h, const Op *o, bool &okp, bool full) {
-        g_calls.clear(); g_self_invalidate.clear();
+        g_calls.clear(); g_self_invalidate.clear(); K.clear();
         router = std::make_unique<R>(); handles.clear(); handles.reserve(64); subs.clear(); has_subject.clear();
         for (auto &p : h) apply(p, false);
         okp = !o || pre(*o);
